@@ -114,7 +114,7 @@ def run(ctx):
 
     script = os.path.join(ctx.out, "script.ndjson")
     if ctx.replay:
-        script = ctx.replay
+        script = os.path.abspath(ctx.replay)
     else:
         with open(script, "w") as f:
             for (c, gz, via), reqs in execs:
